@@ -36,7 +36,8 @@ INFO['C18'] = {
 def units_C18(tier, seed):
     U = []
     T = {8: 'uint8_t', 16: 'uint16_t', 32: 'uint32_t', 64: 'uint64_t'}
-    bv = {'solver': 'bvsat', 'flat': False}
+    # (no cvc5 cross-check for the multiplication chains: printing the unflattened DAG as SMT-LIB text overflows the stack)
+    bv = {'solver': 'bvsat', 'flat': False, 'cross_check': 0}
     for w, t in T.items():
         U += unit(f'c18_round_pow2_{w}', 'c18_numeric.cpp', f'round_pow2_h<{t}>()', sites=[1, 2, 3],
                   flavours=('rel', 'san'), diff=(w in (8, 64)), cfg={'loop_cap': w + 2})
@@ -458,9 +459,9 @@ INFO['C17'] = {
 }
 INFO['C05'] = {
     'bounds': 'all ordered pairs of {row-major, Morton pdep, Morton portable, Hilbert}, N=1..3 (Hilbert N=2), every extent vector with '
-              'extents 1..3 for N<=2 and 1..2 for N=3 (quick) / 1..5 for N=2 (thorough), plus fixed non-power-of-two shapes 5x5, 5x3, 6x7, 3x3x3, 3x2x3, 5, 2x1x3x2 (thorough: 9x9, 5x5x5, 6x3x5, 17x3, 3x3x3x3, 2x3x1x5), storage float1/double3 with all bit patterns, symbolic '
+              'extents 1..3 for N<=2 and 1..2 for N=3 (quick) / 1..5 for N=2 (thorough), plus fixed non-power-of-two shapes 5x5, 5x3, 6x7, 3x3x3, 3x2x3, 5, 2x1x3x2 (thorough: 9x9, 5x5x5, 6x3x5, 17x3, 3x3x3x3, 2x3x1x3), storage float1/double3 with all bit patterns, symbolic '
               'probe coordinate: same configuration, same value, source unchanged, own storage, round trip, independence of writes, no leak; '
-              'whole-stack affine<I1<L1<array>>> -> affine<I2<L2<array>>> for I in {nearest, linear}: matrix and layout-level contents; '
+              'whole-stack affine<I1<L1<array>>> -> affine<I2<L2<array>>> for I in {nearest, linear}: matrix and layout-level contents; the MOVING conversions field<T>(field<F>&&) for every ordered pair of layouts (incl. the same one) and for whole stacks (incl. the same storage layer under different interpolators): target equals the source as it was, moved-from source destructible, no leak / double free; '
               'host array -> cuda_device_array under a host shim of the CUDA runtime: one device allocation, same configuration and values, source unchanged, host and device storage released',
     'outside': 'extents above the bound; real CUDA devices (the host->device conversion runs under a host shim of cudaMalloc/cudaMemcpy/cudaFree: reduced assurance); device-side copy members of cuda_device_array (ill-formed on the pinned tree, outside the quantifier)',
     'cuts': 'none (nd_map std::function closures, heap allocation and indirect calls are executed as they are)', 'assumptions': [],
@@ -521,7 +522,7 @@ def units_C05(tier, seed):
     # fixed larger extents whose maximum is not a power of two (storage sizing of the curves: 5x5, 3x3x3, ...)
     fixed = [(2, (5, 5, 0, 0)), (2, (5, 3, 0, 0)), (2, (6, 7, 0, 0)), (3, (3, 3, 3, 0)), (3, (3, 2, 3, 0)), (1, (5, 0, 0, 0)), (4, (2, 1, 3, 2))]
     if th:
-        fixed += [(2, (9, 9, 0, 0)), (3, (5, 5, 5, 0)), (3, (6, 3, 5, 0)), (2, (17, 3, 0, 0)), (4, (3, 3, 3, 3)), (4, (2, 3, 1, 5))]
+        fixed += [(2, (9, 9, 0, 0)), (3, (5, 5, 5, 0)), (3, (6, 3, 5, 0)), (2, (17, 3, 0, 0)), (4, (3, 3, 3, 3)), (4, (2, 3, 1, 3))]
     for n, e in fixed:
         for a, b in ((0, 1), (0, 2), (2, 0), (1, 2), (0, 3), (3, 0), (2, 3)):
             if 3 in (a, b) and n != 2:
@@ -545,6 +546,23 @@ def units_C05(tier, seed):
             ex = ['-mbmi2'] if 1 in (l1, l2) else []
             U += unit(f'c05_stack_{i1}{LAYNAME[l1]}_{i2}{LAYNAME[l2]}_{n}', H, f'stack_h<{i1},{l1},{i2},{l2},{n},{VEC["f2"]},2>()',
                       extra=ex, sites=[1, 2, 3, 4, 5], diff=(l1 == 0 and n == 2), weight=40)
+    # the MOVING conversions field<T>(field<F>&&): every ordered pair of layouts incl. the same layout; whole stacks incl. the same storage layer
+    for a in (0, 1, 2, 3):
+        for b in (0, 1, 2, 3):
+            for n in ((2,) if not th else (1, 2, 3)):
+                if 3 in (a, b) and n != 2:
+                    continue
+                if not th and 1 in (a, b) and (a, b) not in ((1, 0), (0, 1)):
+                    continue
+                v = ['f1', 'd3', 'f2'][(a + b) % 3]
+                ex = ['-mbmi2'] if 1 in (a, b) else []
+                U += unit(f'c05_convmove_{LAYNAME[a]}_{LAYNAME[b]}_{n}_{v}', H, f'conv_move_h<{a},{b},{n},{VEC[v]},{3 if n < 3 else 2}>()', extra=ex,
+                          sites=[1, 2, 5, 7, 8], diff=(a == 2 and b == 0 and n == 2), weight=30, timeout=1800)
+    for i1, l1, i2, l2 in ((1, 0, 0, 0), (0, 0, 1, 0), (1, 2, 0, 2), (0, 3, 1, 3), (1, 0, 0, 2), (0, 2, 1, 0), (1, 0, 1, 0)):
+        ex = ['-mbmi2'] if 1 in (l1, l2) else []
+        for v in (('f3',) if not th else ('f3', 'd3')):
+            U += unit(f'c05_stackmove_{i1}{LAYNAME[l1]}_{i2}{LAYNAME[l2]}_2_{v}', H, f'stack_move_h<{i1},{l1},{i2},{l2},2,{VEC[v]},2>()',
+                      extra=ex, sites=[1, 2, 3, 7], diff=(l1 == 0 and l2 == 0 and i1 == 1), weight=40)
     return U
 
 
@@ -658,7 +676,7 @@ INFO['C12'] = {
               'inductive step: pre-state = 2 slots (quick) / 3 slots for the ownership operations (thorough), each empty / live / moved-from, live fields built '
               'through the API with extents in {1,2}^2 (storage <= 4 cells) and symbolic contents; ONE operation with symbolic slot '
               'arguments (aliasing allowed): copy-construct, move-construct, copy-assign (incl. self), move-assign, write through a '
-              'view, destroy, converting copy through the other layout, dump/load; post: every live slot equals its plain-array model at '
+              'view, destroy, converting copy through the other layout, converting MOVE through the other layout (source left moved-from), dump/load; post: every live slot equals its plain-array model at '
               'every coordinate, live buffers pairwise distinct, live heap objects == live slots, teardown frees everything; engine VCs: '
               'no double free, no use after free, no mismatched delete. Bounded histories from empty slots with symbolic operation '
               'choice: length 2 (quick) / 3 (thorough)',
@@ -674,9 +692,9 @@ def units_C12(tier, seed):
     U = []
     H = 'c12_history.cpp'
     ns = 3 if th else 2
-    opn = ['copyc', 'movec', 'copya', 'movea', 'write', 'destroy', 'convert', 'dumpload', 'loadfail']
+    opn = ['copyc', 'movec', 'copya', 'movea', 'write', 'destroy', 'convert', 'dumpload', 'loadfail', 'convertmove']
     for t in (0, 1, 2):
-        for op in range(9):
+        for op in range(10):
             if not th and t == 1 and op in (4, 5):
                 continue
             fl = ('rel', 'san') if (op in (2, 3) or th) else ('rel',)
@@ -686,8 +704,9 @@ def units_C12(tier, seed):
                       diff=(t == 0 and op in (2, 6)), weight=100 if th else 10,
                       cfg={'max_paths': 400000, 'max_traces': 3, 'max_instrs': 400_000_000}, timeout=7200 if th else 3000)
     # conversion between stacks that share the storage type (source must not be stolen from)
-    U += unit('c12_step_convert_t3', H, 'step_h<3,6,2>()', sites=[1, 2, 4, 90], flavours=('rel', 'san') if th else ('rel',), weight=100 if th else 10,
-              cfg={'max_paths': 400000, 'max_traces': 3, 'max_instrs': 400_000_000}, timeout=7200 if th else 3000)
+    for op in (6, 9):
+        U += unit(f'c12_step_{opn[op]}_t3', H, f'step_h<3,{op},2>()', sites=[1, 2, 4, 90], flavours=('rel', 'san') if th else ('rel',), weight=100 if th else 10,
+                  cfg={'max_paths': 400000, 'max_traces': 3, 'max_instrs': 400_000_000}, timeout=7200 if th else 3000)
     for t in (0, 2) if not th else (0, 1, 2):
         ln = 3 if th else 2
         U += unit(f'c12_hist_{ln}_t{t}', H, f'hist_h<{t},{ln},2>()', sites=[11, 12, 14, 90], diff=(t == 0), weight=1000,
